@@ -239,6 +239,19 @@ T = {
  "C16-s8": ("C16", ["C16"], "internal/editor/buffers.go: the numbered registers become a slice, newest first; the cap keeps the last N and drops the entry just pushed", "an 11th kill on the same Shell"),
  "C18-s7": ("C18", ["C18"], "internal/core/keys.go PopForce becomes PopKey and loses mustWait = false: a lone ESC handled by handleEscape is not recorded", "a recording with an ESC that leaves Vi insert mode, the ESC being the last byte of a read"),
  "C18-s8": ("C18", ["C18"], "internal/macro/engine.go: macros stored as typed, RunMacro no longer unescapes, RunLastMacro still does", "a macro containing a backslash, replayed with C-x e"),
+
+ "C01-s7": ("C01", ["C01"], "history.go yank-nth-arg: the bounds check reduced to argNth > len(words), the negative conversion rewritten: a negative argument larger in magnitude than the word count indexes words[-1]", "a non-empty history, yank-nth-arg bound to a key, an argument of -3 or less on a two-word line"),
+ "C01-s8": ("C01", ["C01"], "internal/core/selection.go HighlightMatchers flattened, the len(split) > index guard lost", "set blink-matching-paren on and the cursor on a closing bracket without an opener"),
+ "C02-s7": ("C02", ["C02"], "internal/keymap/dispatch.go matchBind: \\M- binds also match in their raw 8-bit form when convert-meta is off", "convert-meta off and a Latin-1 character that is the Meta twin of a bound key (ä, °, É ...)"),
+ "C02-s8": ("C02", ["C02"], "internal/history/sources.go Accept keeps the accepted line as a trimmed copy", "a typed line beginning or ending with a blank (ASCII or U+00A0, U+3000 ...)"),
+ "C12-s7": ("C12", ["C12"], "inputrc/parse.go decodeKey: named keys looked up in a map, the empty-name case moved before the modifier stripping, fallback []rune(val)[0]", "a key name made only of modifiers: Control-, Meta-Control-, C-M-"),
+ "C12-s8": ("C12", ["C12"], "inputrc/parse.go $if: strings.SplitN(val, \"=\", 2) and test[1] without a length check", "$if mode / $if term without '='"),
+ "C15-s7": ("C15", ["C15"], "internal/completion/group.go lastCell always walks back with findFirstCandidate(0,-1): on the empty cell of a partial last row it moves up a row instead of left", "a non-aliased grid of 2+ rows and columns whose last row is partial, cycled backward across the beginning"),
+ "C15-s8": ("C15", ["C15"], "internal/completion/group.go initCompletionsGrid: the row count is computed before the one-column override of listed groups", "candidates displayed as a list (DisplayList) whose entries are short enough for two to fit on a row"),
+ "C17-s7": ("C17", ["C17"], "vim.go viYankTo: yy calls vi-yank-whole-line (Y), which stores the line without its newline, while dd stores it with", "the doubled form yy"),
+ "C17-s8": ("C17", ["C17"], "vim.go viDeleteTo: after dd a trailing newline left on the buffer is removed", "dd on the last line of a multi-line buffer, or in a buffer ending with a newline"),
+ "C19-s7": ("C19", ["C19"], "inputrc/inputrc.go escape: Meta characters written in octal when IsControl(Demeta(c)) instead of !IsPrint: DEL is not a control character for IsControl", "the character U+00FF"),
+ "C19-s8": ("C19", ["C19", "C13"], "inputrc/parse.go doBind: a 'nothing to bind' guard also drops macros with an empty body", "a macro with an empty body (\"\\C-a\": \"\"), dumped and parsed back (reached by C13: the bind is not recorded)"),
  # own mutants
  "m-C01b": ("C01", ["C01"], "internal/core/keys.go ReadKey: a read error only aborts the command when bytes were read with it (`err != nil && len(buf) > 0`): the loop spins on a failing terminal", 'an argument-reading command, then EOF/EIO at its argument read'),
  "m-C02": ("C02", ["C02"], "emacs.go selfInsert: a non-ASCII character is dropped when the buffer length is 15 mod 16", 'a non-ASCII character typed at buffer length 15, 31, ...'),
